@@ -279,6 +279,24 @@ Proof.
   vm_compute. repeat split; reflexivity.
 Qed.
 
+(* FULL-STRENGTH STATEMENT (what "through a cycle ... defines each function once" asks when the cycle passes
+   through the compiled file itself):
+     find_file fs m = Some main -> preprocess fs cwd sp fuel (dirname m) main = Ok seen out -> ~ In m (begins out)
+   It is false of the model (and of the real function, known finding L3): the processed set starts empty,
+   the main file is not in it, so a file that imports the main file back includes the main text again. *)
+Theorem main_text_once_refuted :
+  exists fs cwd sp fuel m main seen out,
+    find_file fs m = Some main /\
+    preprocess fs cwd sp fuel (dirname m) main = Ok seen out /\
+    In m (begins out).
+Proof.
+  exists [(["p"; "main.facto"], [Import ["a.facto"]; Text "func f(Signal x) { return x + 1; }"]);
+          (["p"; "a.facto"], [Import ["main.facto"]; Text "func g(Signal x) { return x * 2; }"])].
+  exists ["w"], [], 2, ["p"; "main.facto"], [Import ["a.facto"]; Text "func f(Signal x) { return x + 1; }"].
+  eexists. eexists. split; [reflexivity|]. split; [vm_compute; reflexivity|].
+  cbn. right. left. reflexivity.
+Qed.
+
 (* ------------------------------------------------------------------ non-trivial instances *)
 Example diamond_and_cycle :
   let fs := [(["p"; "a.facto"], [Text "A"; Import ["c.facto"]; Import ["a.facto"]]);
